@@ -246,7 +246,10 @@ def BF.ofF64 (b : Nat) : BF :=
 def BF.isInt : BF → Bool
   | .zero _ => true
   | .inf _ => false
-  | .fin _ m e => if e ≥ 0 then true else m % 2 ^ e.natAbs == 0
+  | .fin _ m e =>
+    if e ≥ 0 then true
+    else if e + bitlen m ≤ 0 then false          -- |x| < 1 (`x.exp <= 0`)
+    else m % 2 ^ e.natAbs == 0
 
 def maxInt64 : Int := 9223372036854775807
 def minInt64 : Int := -9223372036854775808
@@ -274,6 +277,7 @@ def BF.float64Exact : BF → Option Nat
     let l := bitlen m
     let top : Int := e + l - 1
     if top > 1023 then none
+    else if top < -1074 then none                  -- below the smallest denormal
     else
       let lo : Int := if top - 52 ≥ -1074 then top - 52 else -1074
       let shift : Int := e - lo
@@ -525,7 +529,7 @@ def castContext (std : Std) (params : List (String × TypeRef)) (merged : Ctx) :
   if merged.isEmpty then .ok []
   else if params.isEmpty then .typeErr
   else
-    -- the converted map is assigned in iteration order: reverse so that `getLast` sees the same map
+    -- `converted[k] = …` in iteration order; `getLast` reads the list as that map
     castLoop std merged params
 
 /-- the merge of `Evaluate`: clone the first map, `maps.Copy` every later one over it -/
@@ -548,6 +552,15 @@ def evaluate {E : Type} (std : Std) (cel : Cel E) (c : Cond E) (first : Ctx) (re
       | .unknown => .ok { met := false, missing := missing }
       | .bool b => .ok { met := b, missing := missing }
 
+/-- a second `Evaluate` on an object whose first `Compile()` failed: `compileOnce` has already run, so
+`Compile()` now returns nil; the cast runs, then the nil `e.celEnv` is dereferenced (a panic).
+Not reachable through the server (models with uncompilable conditions are rejected on write). -/
+def evaluateAfterFailedCompile {E : Type} (std : Std) (c : Cond E) (first : Ctx) (rest : List Ctx) :
+    Except Err EvalResult :=
+  match castContext std c.params (mergeCtx first rest) with
+  | .typeErr => .error .paramType
+  | _ => .error .panic
+
 /-- `eval.EvaluateTupleCondition(ctx, tupleKey, evaluableCondition, context)`:
 `condName`/`tupleCtx` are the tuple's condition name and stored context, `ec` the condition handed
 in (nil = `none`), `req` the request context (nil = `none`). -/
@@ -560,9 +573,8 @@ def evalTuple {E : Type} (std : Std) (cel : Cel E) (condName : String) (tupleCtx
     | some c =>
       if condName ≠ c.name then .error .notFound
       else
-        let first : Ctx := match req with | some r => r | none => []
-        let rest : List Ctx := match tupleCtx with | some t => [t] | none => []
-        match evaluate std cel c first rest with
+        -- contextFields = [request fields (or {})], then the tuple's stored fields appended if present
+        match evaluate std cel c (req.getD []) tupleCtx.toList with
         | .error e => .error e
         | .ok r => if r.missing.length > 0 then .error (.missing r.missing) else .ok r.met
 
